@@ -227,7 +227,7 @@ def r3_line_index_exhaustive(a, tier):
         'C12.R3',
         f'line index, exhaustively over the abstract alphabet {{letter, LF, CR}}: for every text up to length {n} and every offset '
         'inside it, PosLine.build_line_cache and the lineinfo / lineat / poscol methods of TextLinesCursor, BufferCursor and Buffer '
-        '(all interpreted on stand-in inputs) report the line number, column, line start and line text obtained by splitting the '
+        '(all interpreted on stand-in inputs, with the cursor standing at the start and at the end of the text) report the line number, column, line start and line text obtained by splitting the '
         'text at LF, CR and CRLF; lineat and poscol of the cursors agree with lineinfo',
         floor=300,
     )
@@ -261,8 +261,9 @@ def r3_line_index_exhaustive(a, tier):
                     want.append((ln, j, start, line))
                 start += len(line)
             for q, mk in impls:
-                for p_, w in enumerate(want):
+                for p_, w, at in [(p_, w, at) for p_, w in enumerate(want) for at in sorted({0, len(text)})]:
                     cur = mk(cache, idx, text)
+                    cur._attrs['pos'] = at  # where the cursor stands must not matter for an explicit offset
                     it = ModelInterp(a, dict(hooks))
                     try:
                         li = it.apply(it.get_attr(cur, 'lineinfo'), [p_], {})
@@ -272,10 +273,10 @@ def r3_line_index_exhaustive(a, tier):
                         raise AnalysisError(f'cannot interpret {q}.lineinfo/lineat/poscol: {e}') from e
                     got = (li['line'], li['col'], li['start'], li['text'])
                     ok = got == w and la == w[0] and pc == w[1]
-                    rep.add({'impl': q.split('.')[-1], 'text': text, 'offset': p_, 'lineinfo': list(got), 'lineat': la, 'poscol': pc, 'ok': ok})
+                    rep.add({'impl': q.split('.')[-1], 'text': text, 'cursor_at': at, 'offset': p_, 'lineinfo': list(got), 'lineat': la, 'poscol': pc, 'ok': ok})
                     if not ok and n_bad < 8:
                         n_bad += 1
-                        rep.fail(f'{q}.lineinfo', f'lineindex:{text!r}:{p_}', f'{q.split(".")[-1]} on the text {text!r}, offset {p_}: lineinfo gives '
+                        rep.fail(f'{q}.lineinfo', f'lineindex:{text!r}:{p_}:{at}', f'{q.split(".")[-1]} on the text {text!r}, offset {p_}, cursor standing at {at}: lineinfo gives '
                                  f'(line, col, start, text) = {got}, lineat/posline {la}, poscol {pc}; splitting the text at its line breaks '
                                  f'gives {w}', a.p.func(f'{q}.lineinfo').loc)
     return rep
